@@ -169,7 +169,7 @@ def compileRpc (st : RpcState) (ds : List Doc) : RpcState × RpcResult :=
 /-- `resolvePoliciesForIdentity` + `Compile` for an identity that has been resolved -/
 def resolveLinks (cfg : RpcCfg) (up : Bool) (s : Store) (now : Nat) (st : RpcState) (t : Token) :
     RpcState × RpcResult :=
-  if t.policies.isEmpty && t.svcs.isEmpty && t.roles.isEmpty && t.nodes.isEmpty then compileRpc st []
+  if t.noLinks then compileRpc st []
   else
     let ro := collect cfg.extendCache cfg.isAsync up s.role st.roles t.roles now cfg.roleTTL
     let st := { st with roles := ro.cache }
@@ -183,10 +183,7 @@ def resolveLinks (cfg : RpcCfg) (up : Bool) (s : Store) (now : Nat) (st : RpcSta
       match po.vals with
       | none => (st, .down)
       | some pvals =>
-        let svcs := dedupSvcs (t.svcs ++ roles.flatMap (·.svcs))
-        let nodes := dedupNodes (t.nodes ++ roles.flatMap (·.nodes))
-        let synth := svcs.map svcDoc ++ nodes.map nodeDoc
-        compileRpc st (filterByScope cfg.dc (filterSome pvals ++ synth))
+        compileRpc st (filterByScope cfg.dc (filterSome pvals ++ synthDocs t roles))
 
 /-- `ResolveToken` in RPC mode. `s` is the servers' current state. -/
 def resolveRpc (cfg : RpcCfg) (up : Bool) (s : Store) (now : Nat) (st : RpcState) (secret : Bytes) :
